@@ -79,3 +79,25 @@ pub open spec fn u32_helpers(lo: int, hi: int, check: bool) -> Seq<Felt> {
     seq![fe(lo % 0x10000), fe(lo / 0x10000), fe(hi % 0x10000), fe(hi / 0x10000),
          if check { fe(finv(fsub(0xFFFF_FFFF, hi))) } else { fe(0) }]
 }
+
+// ---- system / io / ext2 operations (docs/src/design/stack/{system_ops,io_ops,field_ops}.md) ----
+pub open spec fn fail_assert(s: Seq<Felt>) -> bool { s[0].val() != 1 }
+pub open spec fn sem_assert(s: Seq<Felt>) -> Seq<Felt> { s.skip(1) + zf(s) }
+pub open spec fn sem_fmpadd(s: Seq<Felt>, fmp: int) -> Seq<Felt> { keep_with(s, seq![fe(fadd(fmp, s[0].val()))], 1) }
+pub open spec fn fmp_new(s: Seq<Felt>, fmp: int) -> int { fadd(fmp, s[0].val()) }
+/// FMPUPDATE fails unless 2^30 <= fmp + s0 <= 3 * 2^30 - 1
+pub open spec fn fail_fmpupdate(s: Seq<Felt>, fmp: int) -> bool { fmp_new(s, fmp) < 0x4000_0000 || fmp_new(s, fmp) > 0xBFFF_FFFF }
+pub open spec fn sem_sdepth(s: Seq<Felt>) -> Seq<Felt> { seq![fe(s.len() as int)] + s }
+pub open spec fn sem_clk(s: Seq<Felt>, clk: int) -> Seq<Felt> { seq![fe(clk)] + s }
+/// CALLER overwrites the top word with the hash of the calling function (element 3 of the word on top)
+pub open spec fn sem_caller(s: Seq<Felt>, h: Seq<Felt>) -> Seq<Felt> { keep_with(s, seq![h[3], h[2], h[1], h[0]], 4) }
+pub open spec fn sem_push(s: Seq<Felt>, v: Felt) -> Seq<Felt> { seq![v] + s }
+/// ADVPOPW overwrites the top word with the word popped from the advice stack
+pub open spec fn sem_advpopw(s: Seq<Felt>, w: Seq<Felt>) -> Seq<Felt> { keep_with(s, seq![w[3], w[2], w[1], w[0]], 4) }
+/// EXT2MUL: [b1, b0, a1, a0, ...] -> [b1, b0, c1, c0, ...], (c0, c1) = (a0, a1) * (b0, b1) in F_p[x]/(x^2 - x + 2)
+pub open spec fn sem_ext2mul(s: Seq<Felt>) -> Seq<Felt> {
+    let b1 = s[0].val(); let b0 = s[1].val(); let a1 = s[2].val(); let a0 = s[3].val();
+    keep_with(s, seq![s[0], s[1],
+        fe(fsub(fmul(fadd(b0, b1), fadd(a1, a0)), fmul(b0, a0))),
+        fe(fsub(fmul(b0, a0), fmul(fmul(2, b1), a1)))], 4)
+}
